@@ -1,4 +1,5 @@
 """Per-property check procedures.  ./check <ID> --tier quick|thorough"""
+import json
 from . import tlc
 from .core import Check
 from . import drive_infer as DI
@@ -72,11 +73,17 @@ EDGE_ROOTS = [
 ]
 
 
+# an input on which wrapper types cached their hash strings while their content was still unregistered (found by the random driver;
+# kept as a fixed case because the path is rare: list-element parents, look-alike children kept apart by number_2)
+STALE_HASH_SAMPLES = json.loads(r'''[{"p": {"x": 1, "w": "1"}, "r": {"inner": {"v": {"k": "t", "j": 1}, "y": "s", "w": [{"k": 1}], "x": 1}, "x": "1.5"}, "q": [{"z": {"k": "t", "j": 1}, "x": {"k": 1}, "y": {"k": "t", "j": 1}, "v": 1}, {"z": {"k": 1}, "y": [{"k": 1}], "v": []}, {"y": true}]}, {"q": [{"x": "1", "v": "s"}, {"x": {"k": 1}, "z": {"k": "t", "j": 1}, "w": {}, "v": 1}], "p": {"x": ["a"], "w": 2.5, "v": "1", "z": true}, "items": {"x": ["a"], "y": true}, "r": {"inner": {"z": [{"k": 1}], "v": {}, "x": ["a"]}, "x": "s"}}, {"q": {"x": null, "v": null, "y": [], "z": 1}, "r": [{"y": ["a"]}, {"z": {"k": 1}, "w": 1, "x": "1.5", "v": {"k": 1}}], "p": [{"z": [{"k": 1}], "x": ["a"], "y": "1", "w": 2.5}, {"x": 2.5}, {"x": null, "v": true, "z": [{"k": 1}], "w": true}], "nodes": {"x": 1, "y": 2.5, "z": [1], "v": 1}}]''')
+
+
 def registry_cases(chk, n_random):
     cases = []
     for roots in EDGE_ROOTS:
         for pol in DR.POLICIES:
             cases.append((roots, {}, pol, "edge"))
+    cases.append(([("Root", json.loads(json.dumps(STALE_HASH_SAMPLES)))], {"disabled": ["FloatString"]}, [("number", 2)], "edge"))
     for _ in range(n_random):
         samples = DR.random_merge_input(chk.rng)
         envspec = chk.rng.choice(DI.RANDOM_ENVS[:3] + [{}, {"dkf": ["p", "items"]}, {"dkr": ["[xyz]", "k"]}, {"dkf": ["q"], "dkr": ["[a-z]"]}])
